@@ -7,6 +7,7 @@ import re
 
 from engine import (cmatch, cpath, expr_s, norm_learn, run_monitor, path_to, describe_path, strip_ids, OKV, ERRV, contains, finals)
 from helpers import *
+from helpers import _defs_exprs
 from common import VERIF, rel
 import c04
 import c09
@@ -63,11 +64,24 @@ def chunk_sites(ctx, key):
     res = []
     for inst, n, si, V in out:
         Vs = V
+        V = canon_vars(g, V)
+        same = lambda e, V=V: canon_vars(g, e) == V
         init = vec_initial_len(g, V)
-        pushes = {m for m in P.calls(r"Vec::<T, A>::push$") if event_args(g, m)[0] == V}
-        others = [m for m in P.calls(r"Vec::<T, A>::\w+$") if event_args(g, m)[0] == V and mut_first_arg(g, m)
-                  and m not in pushes]
         create = V[3] if (isinstance(V, tuple) and V and V[0] == "call" and len(V) > 3) else None
+        if init is None and isinstance(V, tuple) and len(V) == 3 and V[0] == "field" and isinstance(V[1], tuple) and V[1] and V[1][0] == "var":
+            # the vector lives in a field of a local bundle (`scanned.global_offsets`): its initial value is the field of the bundle's
+            # one construction
+            whole = [x for x in _defs_exprs(g, g.insts[V[1][1]], V[1][2]) if isinstance(x, tuple) and x and x[0] == "agg"]
+            if len(whole) == 1:
+                a_ = ctx.facts.adts.get(whole[0][1])
+                names = [f["name"] for f in a_["variants"][0]["fields"]] if a_ else []
+                if V[2] in names and len(names) == len(whole[0][3]):
+                    v0 = whole[0][3][names.index(V[2])]
+                    init = vec_initial_len(g, v0)
+                    create = v0[3] if (isinstance(v0, tuple) and v0 and v0[0] == "call" and len(v0) > 3) else None
+        pushes = {m for m in P.calls(r"Vec::<T, A>::push$") if same(event_args(g, m)[0])}
+        others = [m for m in P.calls(r"Vec::<T, A>::\w+$") if same(event_args(g, m)[0]) and mut_first_arg(g, m)
+                  and m not in pushes]
 
         def step(ms, pi, qi, learn, pushes=pushes, create=create):
             n_ = P.gnode(pi)
@@ -171,6 +185,12 @@ def run(ctx, rep):
         rep.ok("R05.1", "Chunk built in %s" % short_key(s["inst"].key), "offset vector has at least %d element(s) on every Ok return "
                "(created with %d, +%d dominating push)" % (ml, s["init"], s["min_push"]), where=s["where"])
     global_min = min(minlen_by_V.values()) if minlen_by_V else 0
+    loader_insts = {s_["inst"].id for s_ in sites}
+
+    def _inst_chain(i):
+        while i is not None:
+            yield i
+            i = i.parent
 
     table = load_table()
     seen_sites = set()
@@ -218,7 +238,12 @@ def run(ctx, rep):
         if offs_k is not None:
             k, ml = offs_k
             if k > ml:
-                rep.violation("R05.1", "open|%s|min-len=%d" % (re.sub(r"[\w:.]*\.global_offsets", "offsets-of-a-chunk-under-construction", re.sub(r"vec!\[\.\.\]", "offsets", sig))[:110], ml),
+                # where the vector is used decides what it is called: inside the function that builds the chunk value (and its helpers)
+                # it is the vector of a chunk under construction, anywhere else it belongs to a loaded chunk
+                in_loader = any(a_.id in loader_insts for a_ in _inst_chain(g.inst(n)))
+                vname = "offsets-of-a-chunk-under-construction" if in_loader else "offsets"
+                keysig = re.sub(r"[\w:.]*\.global_offsets|vec!\[\.\.\]", vname, sig)
+                rep.violation("R05.1", "open|%s|min-len=%d" % (keysig[:110], ml),
                               sig[:100], "recovery can panic: the offset vector of a recovered chunk can have only %d element(s) (a chunk "
                               "file with zero complete records) but this site needs %d" % (ml, k), where=g.where(n))
             else:
